@@ -3,7 +3,10 @@ use super::core::*;
 use super::queue_state::*;
 use super::job_queue::*;
 
+#[cfg(not(desync_verif))]
 use std::sync::*;
+#[cfg(desync_verif)]
+use vsched::sync::*;
 use futures::task::{ArcWake};
 
 ///
